@@ -679,7 +679,12 @@ r_expand(const Expansion &expansion, const vector_string &args,
     }
     if (!node._nested.empty()) {
       string nested_result;
-      if (node._optional && args.size() >= _num_parameters) {
+      // __VA_OPT__ only expands if the variable arguments contain a token:
+      // more than one argument implies a comma.
+      if (node._optional && _variadic_param >= 0 &&
+          ((int)args.size() > _variadic_param + 1 ||
+           ((int)args.size() == _variadic_param + 1 &&
+            !args[_variadic_param].empty()))) {
         nested_result = r_expand(node._nested, args, expand_undefined, ignores);
       }
       if (node._stringify) {
